@@ -158,9 +158,12 @@ def valid_strings(rng, n=400):
                 body.append(e)
                 if fams[e] != "esc:simple":
                     body.append(" ")
-                    fam = "str:mixed"
-                if fams[e] == "esc:hexlong" or fams[e] == "esc:ucn":
-                    fam = "str:" + fams[e]
+                    if fam == "str:plain":
+                        fam = "str:mixed"
+                if fams[e] == "esc:ucn":
+                    fam = "str:esc:ucn"
+                elif fams[e] == "esc:hexlong" and fam != "str:esc:ucn":
+                    fam = "str:esc:hexlong"
             else:
                 body.append(rng.choice(S_CHARS))
         yield p + '"' + "".join(body) + '"', fam
